@@ -71,7 +71,7 @@ def eq(x, y):
     elif isinstance(x, (tuple, list)):
         return type(x) == type(y) and len(x) == len(y) and _eq_attrs(x,y,['__shape__']) and (len(x) == 0 or min([eq(i,j) for i,j in zip(x,y)]))
     elif isinstance(x, np.ndarray):
-        return type(x) == type(y) and len(x) == len(y) and _eq_attrs(x,y,['__shape__']) and (0 in x.shape or np.all(veq(x,y)))
+        return type(x) == type(y) and x.shape == y.shape and (0 in x.shape or np.all(veq(x,y)))
     elif isinstance(x, (pd.DataFrame, pd.Series)):
         return type(x)==type(y) and _eq_attrs(x,y, attrs = ['__shape__', 'index', 'columns']) and (0 in x.shape or np.all(veq(x,y)))
     elif isinstance(x, dict):
